@@ -29,7 +29,7 @@ Section Loop.
       | Err _ => DErr DParse
       | Ok (num, typ, r) =>
         if msg_max_num <? num then DErr DParse
-        else if typ =? 4 then (if num =? grp then DOk (acc, r) else DErr DParse)
+        else if (typ =? 4) && negb slow then (if num =? grp then DOk (acc, r) else DErr DParse)
         else
           let tagraw := if slow then firstn (length bs - length r) bs else enc_tag num typ in
           match msg_step slow md (dm d) (msg_dsub2 d) tagraw num typ r acc with
@@ -51,11 +51,12 @@ Section Loop.
   Qed.
 
   Lemma msg_dm_end_grp d tid md grp g rest acc :
+    slow = false ->
     nth_error S tid = Some md -> 1 <= grp -> grp <= msg_max_num -> (0 < length g)%nat ->
     dm (Datatypes.S d) tid grp g (enc_tag grp 4 ++ rest) acc = DOk (acc, rest).
   Proof.
-    intros H Hlo Hhi Hg. destruct g as [|x g]; [cbn in Hg; lia|].
-    rewrite (msg_dm_unfold _ _ _ _ _ _ _ _ H).
+    intros Hslow H Hlo Hhi Hg. destruct g as [|x g]; [cbn in Hg; lia|].
+    rewrite (msg_dm_unfold _ _ _ _ _ _ _ _ H). rewrite Hslow.
     destruct (msgw_enc_tag_nonempty grp 4) as (b & r & E).
     assert (Hne : exists b0 r0, enc_tag grp 4 ++ rest = b0 :: r0)
       by (rewrite E; eexists; eexists; reflexivity).
@@ -63,7 +64,7 @@ Section Loop.
     rewrite msg_max_num_eq in Hhi.
     rewrite msgw_dec_tag_enc by lia.
     replace (msg_max_num <? grp) with false by (rewrite msg_max_num_eq; lia).
-    cbn [N.eqb Pos.eqb]. rewrite N.eqb_refl. reflexivity.
+    cbn [N.eqb Pos.eqb negb andb]. rewrite N.eqb_refl. reflexivity.
   Qed.
 
   (* one field whose step is known *)
@@ -86,7 +87,7 @@ Section Loop.
       rewrite msg_max_num_eq in Hhi.
       rewrite msgw_dec_tag_enc by lia.
       replace (msg_max_num <? num) with false by (rewrite msg_max_num_eq; lia).
-      replace (typ =? 4) with false by lia.
+      replace (typ =? 4) with false by lia. cbn [andb].
       cbv zeta. rewrite Hstep. reflexivity.
   Qed.
 End Loop.
@@ -485,7 +486,7 @@ Section Main.
   (* what follows the body: nothing (top level, length-delimited), or the end-group tag *)
   Definition msg_term_ok (grp : N) (term rest : list byte) : Prop :=
     (grp = 0 /\ term = [] /\ rest = []) \/
-    (1 <= grp /\ grp <= msg_max_num /\ term = enc_tag grp 4 ++ rest).
+    (slow = false /\ 1 <= grp /\ grp <= msg_max_num /\ term = enc_tag grp 4 ++ rest).
 
   Definition msg_dec_stmt (v : value) : Prop :=
     forall dep tid, msg_typed slow S dep tid v = true -> msg_sizes_ok S tid v = true ->
@@ -960,7 +961,7 @@ Section Main.
         cbn [app]. change (b0 :: u0 ++ tail) with ((b0 :: u0) ++ tail).
         rewrite Hdt'.
         replace (msg_max_num <? num) with false by lia.
-        apply negb_true_iff in Ht4. rewrite Ht4. cbv zeta.
+        apply negb_true_iff in Ht4. rewrite Ht4. cbn [andb]. cbv zeta.
         rewrite (msg_rejects_step _ num typ (r ++ tail) (accf, pre) Hrej).
         unfold msg_unknown. rewrite Hpv'. cbn [fst snd].
         destruct (IH r' g accf (pre ++ (if slow then firstn (length ((b0 :: u0) ++ tail) - length (r ++ tail)) ((b0 :: u0) ++ tail)
@@ -1017,9 +1018,9 @@ Section Main.
       rewrite Hins. cbn [msg_macc_of].
       destruct (msg_unknown_loop d tid md grp Hmd (x00 :: unk) unk g2 fs [] term Hunk Hg2) as (g3 & Hg3 & E3).
       etransitivity; [exact E3|]. clear E3. cbn [app].
-      destruct Hterm as [(-> & -> & ->)|(Hlo & Hhi & ->)].
+      destruct Hterm as [(-> & -> & ->)|(Hsl & Hlo & Hhi & ->)].
       + apply (msg_dm_end0 slow S d tid md g3 (fs, unk) Hmd). lia.
-      + apply (msg_dm_end_grp slow S d tid md grp g3 rest (fs, unk) Hmd Hlo Hhi). lia.
+      + apply (msg_dm_end_grp slow S d tid md grp g3 rest (fs, unk) Hsl Hmd Hlo Hhi). lia.
     - split; [intros dep tid Hty; discriminate|]. exact (proj1 IH).
   Qed.
 End Main.
